@@ -336,7 +336,6 @@ def builtin (f : String) (args : List Val) : Option (R Val) :=
   else if f = "make" then
     match args with
     | [] => some (.ok (.list []))
-    | .int 0 :: _ => some (.ok (.list []))
     | .int n :: _ => if n < 0 then some .panic else some (.ok (.list (List.replicate n.toNat .nil)))   -- zero values of a slice of pointers
     | _ => some (.stuck "make with a non-integer length")
   else if f = "min" then
